@@ -96,6 +96,21 @@ fn arbitrary_body(rng: &mut Rng, type_id: u8) -> Vec<u8> {
             }
             b
         }
+        8 if rng.chance(1, 6) => {
+            // a long run of one byte value (every AMF0 marker, 0xFF): anything that costs a stack
+            // frame or an allocation per byte shows at this length (deep *nesting* is C14's)
+            let b = if rng.chance(1, 8) { 0xFF } else { rng.below(0x13) as u8 };
+            let n = *rng.pick(&[2_000usize, 20_000, 20_000, 200_000, 200_000, 1_000_000]);
+            let mut v = Vec::with_capacity(n + 32);
+            match rng.below(4) {
+                0 => v.extend(amf::encode(&[amf::s(*rng.pick(&COMMANDS)), amf::num(1.0)])),
+                1 => v.extend(amf::encode(&[amf::s("@setDataFrame"), amf::s("onMetaData")])),
+                2 => v.extend_from_slice(&[0x03, 0x00, 0x01, b'a']),
+                _ => {}
+            }
+            v.resize(v.len() + n, b);
+            v
+        }
         7 => {
             // declared lengths / counts with nothing behind
             match rng.below(4) {
